@@ -739,7 +739,7 @@ fn check_fixed(left: usize, size: usize, content: &[u8], buf: &[u8], bad: &mut B
 
 pub fn run_wcase(c: &WCase, st: &mut WStats, trace: bool) -> (Vec<(&'static str, &'static str, String, usize)>, WFlags, Option<Vec<String>>, usize) {
     let mut it = WInterp::new(&c.spec, st, trace);
-    it.observe(false);
+    it.observe(true);
     for (i, op) in c.ops.iter().enumerate() {
         if it.ended || !it.viols.is_empty() {
             break;
